@@ -106,16 +106,16 @@ theorem addAll_nitems : ∀ {rs : List Ref} {st st' : St}, addAll st rs = .ok st
 
 def IdxShort : Option (List Char) → Prop
   | none => True
-  | some ds => ds.length ≤ intMaxStrDigits
+  | some ds => IntFits ds.length
 
 def WidthShort : Width → Prop
   | .none => True
-  | .num ds => ds.length ≤ intMaxStrDigits
+  | .num ds => IntFits ds.length
   | .star idx => IdxShort idx
 
 def PrecShort : Prec → Prop
   | .none => True
-  | .num ds => ds.length ≤ intMaxStrDigits
+  | .num ds => IntFits ds.length
   | .star idx => IdxShort idx
 
 /-- every numeral of the directive has at most `sys.get_int_max_str_digits()` digits -/
@@ -125,22 +125,19 @@ structure DirShort (d : Directive) : Prop where
   prec : PrecShort d.prec
 
 theorem pyInt_eq (ds : List Char) :
-    pyInt ds = if ds.length ≤ intMaxStrDigits then .ok (decimal ds) else .error (.crash .ValueError) := by
-  unfold pyInt
-  by_cases h : ds.length > intMaxStrDigits
-  · simp [h, Nat.not_le.2 h]
-  · simp [h, Nat.not_lt.1 h]
+    pyInt ds = if IntFits ds.length then .ok (decimal ds) else .error (.crash .ValueError) := by
+  rfl
 
 theorem argIndex_eq (ds : List Char) :
     argIndex ds =
-      if ds.length ≤ intMaxStrDigits then
+      if IntFits ds.length then
         (if 1 ≤ decimal ds ∧ decimal ds ≤ Spec.Printf.NL_ARGMAX then .ok (decimal ds) else .error .ArgumentRangeError)
       else .error (.crash .ValueError) := by
   have e : (decide (0 < decimal ds) && decide (decimal ds ≤ Spec.Printf.NL_ARGMAX)) =
       decide (1 ≤ decimal ds ∧ decimal ds ≤ Spec.Printf.NL_ARGMAX) := (Bool.decide_and _ _).symm
   unfold argIndex
   rw [pyInt_eq]
-  by_cases hl : ds.length ≤ intMaxStrDigits
+  by_cases hl : IntFits ds.length
   · simp only [hl, if_true]
     rw [nl_argmax_pin, e]
     by_cases hr : 1 ≤ decimal ds ∧ decimal ds ≤ Spec.Printf.NL_ARGMAX
@@ -154,7 +151,7 @@ theorem optIndex_ok_iff (idx : Option (List Char)) (i : Option Nat) :
   | none => simp [optIndex, IdxShort, IdxInRange, idxValue, eq_comm]
   | some ds =>
     simp only [optIndex, argIndex_eq, IdxShort, IdxInRange, idxValue]
-    by_cases hl : ds.length ≤ intMaxStrDigits
+    by_cases hl : IntFits ds.length
     · by_cases hr : 1 ≤ decimal ds ∧ decimal ds ≤ Spec.Printf.NL_ARGMAX
       · simp [hl, hr, eq_comm]
       · simp [hl, hr]
@@ -167,7 +164,7 @@ theorem optIndex_error {idx : Option (List Char)} {e : CErr} (h : optIndex idx =
   | none => simp [optIndex] at h
   | some ds =>
     simp only [optIndex, argIndex_eq, IdxShort] at h ⊢
-    by_cases hl : ds.length ≤ intMaxStrDigits
+    by_cases hl : IntFits ds.length
     · by_cases hr : 1 ≤ decimal ds ∧ decimal ds ≤ Spec.Printf.NL_ARGMAX
       · simp [hl, hr] at h
       · simp [hl, hr] at h; exact Or.inl h.symm
@@ -246,7 +243,7 @@ theorem doWidth_ok_iff {conv : Char} (hc : conv ∈ convChars) (st st' : St) (w 
     simp only [doWidth, WidthShort, Width.Valid, widthRefs, addAll, true_and]
   | num ds =>
     simp only [doWidth, pyInt_eq, WidthShort, Width.Valid, widthRefs, addAll, ← int_max_pin, Except.ok.injEq]
-    by_cases hl : ds.length ≤ intMaxStrDigits
+    by_cases hl : IntFits ds.length
     · simp only [hl, if_true, true_and]
       by_cases hv : decimal ds > Generated.CFormatTables.INT_MAX
       · simp only [hv, if_true, error_ne_ok, Nat.not_le.2 hv, false_and]
@@ -292,12 +289,12 @@ theorem doPrec_ok_iff {conv : Char} (hc : conv ∈ convChars) (st st' : St) (p :
       cases ds with
       | nil => rfl
       | cons d ds' => rfl
-    have hlen : (if ds.isEmpty then ['0'] else ds).length ≤ intMaxStrDigits ↔ ds.length ≤ intMaxStrDigits := by
+    have hlen : IntFits (if ds.isEmpty then ['0'] else ds).length ↔ IntFits ds.length := by
       cases ds with
-      | nil => exact ⟨fun _ => Nat.zero_le _, fun _ => by decide⟩
+      | nil => exact ⟨fun _ => Or.inr (Nat.zero_le _), fun _ => by show IntFits 1; unfold IntFits; omega⟩
       | cons d ds' => exact Iff.rfl
     simp only [doPrec, pyInt_eq, PrecShort, Prec.Valid, precRefs, addAll, ← int_max_pin, hdec, Except.ok.injEq]
-    by_cases hl : ds.length ≤ intMaxStrDigits
+    by_cases hl : IntFits ds.length
     · simp only [hlen.2 hl, hl, if_true, true_and]
       by_cases hv : decimal ds > Generated.CFormatTables.INT_MAX
       · simp only [hv, if_true, error_ne_ok, Nat.not_le.2 hv, false_and]
